@@ -39,3 +39,17 @@ add("C20",
     "DESIGN.md 3/C20")
 for _p in ("C09", "C20"):
     NOT_APPLICABLE.pop(_p, None)
+
+add("C02",
+    "CrossHair symbolic execution of Saml2Client.parse_authn_request_response -> Entity._parse_response -> AuthnResponse over the whole signature-requirement table with symbolic options and verdicts",
+    "Exhaustive over the finite table (3 options x what is signed x verdict of each present signature x plain/encrypted): acceptance equals the documented predicate (every present signature verifies and every enabled requirement is met by a present signature), through the public client entry point on really parsed documents.",
+    "Trusted: CrossHair/z3; xmlsec1 replaced by a stub backend answering per node id (contract: True or SignatureError; decrypt returns prepared plaintext); fixed clock; AST cuts.",
+    "DESIGN.md 3/C02")
+add("C17",
+    "CrossHair symbolic execution of Server.create_authn_response (encryption branches of Entity._response) against a cipher model, and of the SP decrypt/validate path over content mutations inside the ciphertext",
+    "IdP side: over sign x sign x encrypt x self-contained x advice x SP-has-cert x tool-fails, no identity sentinel occurs outside the ciphertext token when encryption was requested for an SP with an encryption certificate. "
+    "SP side: a decrypted assertion is accepted exactly when its plain twin is (7 content mutations x signature x keys first/second/none x options); undecryptable content never yields an identity.",
+    "Trusted: CrossHair/z3; cipher by contract (opaque token bound to the recipient certificate, decrypt iff key matches); signature verdicts by stub; fixed clock.",
+    "DESIGN.md 3/C17")
+for _p in ("C02", "C17"):
+    NOT_APPLICABLE.pop(_p, None)
